@@ -269,7 +269,7 @@ def eval_misc(case):
                 pass
             except Exception as e:
                 viols.append({'kind': 'wrong-exception-type', 'text': text, 'error': repr(e)[:100]})
-        for bad in ('', 'TT', '1', 'é'):
+        for bad in ('', 'TT', 'é'):          # not a single character / not ASCII (a digit is not judged: the statement is silent)
             try:
                 isoparser(sep=bad)
                 viols.append({'kind': 'invalid-separator-accepted', 'sep': repr(bad)})
@@ -277,6 +277,29 @@ def eval_misc(case):
                 pass
             except Exception as e:
                 viols.append({'kind': 'wrong-exception-type', 'text': repr(bad), 'error': repr(e)[:100]})
+    elif kind == 'input-types':
+        # str, bytes, text stream and byte stream of the same characters must be read alike - in particular a stream
+        # gets no leniency about surrounding white space or line ends
+        import io
+        p = isoparser()
+        entries = [('isoparse', p.isoparse, '2019-12-31T05:07:11'), ('isoparse', p.isoparse, '20191231'), ('parse_isodate', p.parse_isodate, '2019-W01-1'),
+                   ('parse_isotime', p.parse_isotime, '05:07:11.5'), ('parse_tzstr', p.parse_tzstr, '+05:30')]
+        for name, fn, good in entries:
+            for text in (good, good + '\n', good + '\r\n', good + ' ', ' ' + good, '\n' + good, good + '\t', good + 'x', good + '\x00'):
+                def out(v):
+                    try:
+                        return ('ok', fn(v))
+                    except ValueError:
+                        return ('ValueError',)
+                    except Exception as e:
+                        return ('EXC', type(e).__name__)
+                o = out(text)
+                if text != good and o[0] == 'ok':
+                    viols.append({'kind': 'not-iso-but-accepted', 'entry': name, 'text': repr(text), 'got': o[1]})
+                for form, v in (('bytes', text.encode('ascii')), ('text-stream', io.StringIO(text)), ('byte-stream', io.BytesIO(text.encode('ascii')))):
+                    o2 = out(v)
+                    if o2 != o:
+                        viols.append({'kind': 'input-types-differ', 'entry': name, 'text': repr(text), 'input': form, 'str_outcome': o, 'outcome': o2})
     elif kind == 'non-text':
         for x in (None, 20140214, 2014.5, ['2014'], D.date(2014, 2, 14)):
             try:
@@ -322,7 +345,7 @@ def run(ctx):
         short.append((entry, '', 0))
     ctx.explore('short-strings', short, 'eval_short', chunk=4)
     ctx.explore('field-boundaries', ['datetime', 'date', 'time', 'tz'], 'eval_boundaries', chunk=1)
-    ctx.explore('misc', [('non-ascii',), ('sep-mismatch',), ('non-text',)], 'eval_misc', serial=True)
+    ctx.explore('misc', [('non-ascii',), ('sep-mismatch',), ('non-text',), ('input-types',)], 'eval_misc', serial=True)
     ctx.coverage_extra.update({
         'bounds': {'valid_strings': len(vs), 'edit_distance': 2 if ctx.thorough else 1, 'alphabet': ALPHA,
                    'short_string_length': L, 'short_alphabet': SHORT_ALPHA},
